@@ -184,3 +184,85 @@ pub fn establish(toks: Vec<Tok>) -> Vec<Tok> {
         vec![vec![status, when]]
     })
 }
+
+/// The timers of the real listener (`Core::listen` on a loopback port).
+/// in : [kind, tls_handshake_timeout_ms, client_listener_timeout_ms]
+///        kind 0: TCP connection that never sends anything; 1: half a ClientHello, then silence (both: TLS handshake timeout)
+///             2: completed TLS handshake (HTTP/1.1), no request; 3: the same with HTTP/2 (both: client-listener timeout)
+/// out: [996] | [closed by the endpoint (0|1), when: 0 = before 0.7 x the timeout, 1 = between that and 3 x + 500 ms, 2 = still open then]
+pub fn front(toks: Vec<Tok>) -> Vec<Tok> {
+    let f = toks[0].clone();
+    let rt = tokio::runtime::Builder::new_multi_thread().worker_threads(2).enable_all().build().unwrap();
+    rt.block_on(async move {
+        let (hs, lt) = (f[1] as u64, f[2] as u64);
+        let make = move |addr: std::net::SocketAddr| {
+            Settings::builder()
+                .listen_address(addr)
+                .unwrap()
+                .listen_protocols(ListenProtocolSettings {
+                    http1: Some(Http1Settings::builder().build()),
+                    http2: Some(Http2Settings::builder().build()),
+                    quic: None,
+                })
+                .allow_private_network_connections(true)
+                .tls_handshake_timeout(Duration::from_millis(hs))
+                .client_listener_timeout(Duration::from_millis(lt))
+                .tcp_connections_timeout(Duration::from_secs(100))
+                .build()
+                .unwrap()
+        };
+        let Some(ep) = crate::front::start(make, crate::ctxutil::basic_hosts, None).await else {
+            return vec![vec![996]];
+        };
+        let t = if f[0] <= 1 { hs } else { lt };
+        let limit = Duration::from_millis(3 * t + 500);
+        let mut buf = [0u8; 4096];
+        let (closed, el) = if f[0] <= 1 {
+            let Ok(mut s) = tokio::net::TcpStream::connect(ep.addr).await else { return vec![vec![996]] };
+            let started = std::time::Instant::now();
+            if f[0] == 1 {
+                // record header announcing 512 bytes of handshake, ClientHello header, version, 20 of the 32 random bytes
+                let mut hello = vec![0x16, 3, 1, 2, 0, 1, 0, 1, 0xfc, 3, 3];
+                hello.extend((0..20).map(|i| i as u8 * 3 + 1));
+                let _ = s.write_all(&hello).await;
+            }
+            let r = tokio::time::timeout(limit, async {
+                loop {
+                    match s.read(&mut buf).await {
+                        Ok(0) | Err(_) => break,
+                        Ok(_) => continue,
+                    }
+                }
+            })
+            .await;
+            (r.is_ok(), started.elapsed())
+        } else {
+            let alpn: &[&[u8]] = if f[0] == 3 { &[b"h2"] } else { &[b"http/1.1"] };
+            let Some(mut s) = crate::front::tls_connect(ep.addr, "localhost", alpn).await else { return vec![vec![996]] };
+            let started = std::time::Instant::now();
+            if f[0] == 3 {
+                // the HTTP/2 connection preface and an empty SETTINGS frame, then nothing
+                let _ = s.write_all(b"PRI * HTTP/2.0\r\n\r\nSM\r\n\r\n\x00\x00\x00\x04\x00\x00\x00\x00\x00").await;
+                let _ = s.flush().await;
+            }
+            let r = tokio::time::timeout(limit, async {
+                loop {
+                    match s.read(&mut buf).await {
+                        Ok(0) | Err(_) => break,
+                        Ok(_) => continue,
+                    }
+                }
+            })
+            .await;
+            (r.is_ok(), started.elapsed())
+        };
+        let when = if !closed {
+            2
+        } else if el < Duration::from_millis(t * 7 / 10) {
+            0
+        } else {
+            1
+        };
+        vec![vec![closed as u128, when]]
+    })
+}
